@@ -86,7 +86,7 @@ theorem source_forwards_radii : MatidGen.ClusterRule.forwardsRadii = true := by 
 /-- the shared distance information of get_clusters is computed with the resolved clustering radii, and every `Cluster(...)` construction in sbc.py (the search loop AND the merge step) passes the structure, the distances, the
 clustering radii and the bond threshold on — a cluster created without them would evaluate its shortcut with defaults -/
 theorem constructors_forward_radii :
-    MatidGen.SbcRule.distancesUseRadii = true ∧ MatidGen.SbcRule.ctorKeywords ≠ [] ∧
+    MatidGen.SbcRule.distancesUseRadii = true ∧ MatidGen.SbcRule.ctorForwardsByName = true ∧ MatidGen.SbcRule.ctorKeywords ≠ [] ∧
     MatidGen.SbcRule.ctorKeywords.all (fun k => k.contains "radii" && k.contains "bond_threshold" && k.contains "distances"
       && k.contains "system") = true := by decide
 
